@@ -150,9 +150,25 @@ def main(modname):
     if a.serial or a.jobs <= 1 or len(jobs) <= 1:
         results = [_worker(j) for j in jobs]
     else:
+        # results are collected as they arrive; after the wall-clock limit of the tier the pool is stopped: cases not
+        # finished count as "ran out of budget" (inconclusive) -- unless a counterexample was already found
+        limit = float(os.environ.get('VERIF_WALL_LIMIT', '840' if a.tier == 'quick' else '14000'))
         ctx = mp.get_context('fork')
+        results = []
         with ctx.Pool(min(a.jobs, len(jobs))) as pool:
-            results = pool.map(_worker, jobs, chunksize=1)
+            it = pool.imap_unordered(_worker, jobs, chunksize=1)
+            for _ in range(len(jobs)):
+                left = limit - (time.time() - t0)
+                try:
+                    results.append(it.next(timeout=max(left, 1)))
+                except mp.TimeoutError:
+                    pool.terminate()
+                    done = {r.get('case') for r in results}
+                    for j in jobs:
+                        if repr(j[1]) not in done:
+                            results.append({'case': repr(j[1]), 'paths': 0, 'exhausted': False, 'violations': [],
+                                            'known': [], 'unknown': [], 'unsupported': [], 'reached': {}})
+                    break
 
     agg = {'paths': 0, 'nontrivial_paths': 0, 'checks': 0, 'concolic': 0}
     stats = {}
